@@ -283,6 +283,7 @@ pub fn lib_call<T, F: FnOnce() -> T, C: FnOnce() -> Value>(
     // that alone costs seconds per GiB of the thread's own CPU time (observed: 4.8 s for the 1.2 GB
     // of the F15 case on a busy host, 1 s on an idle one).  How much a call may hold is the memory
     // oracle's question; the CPU limit gets an allowance of 16 ms per MiB by which live memory grew.
+    out.maxv("max_thread_cpu_ms_of_one_monitored_library_call", used / 1_000_000);
     let grown_mib = (crate::alloc::peak_since_call(m0) >> 20) as u64;
     let limit = call_cpu_limit_ns().saturating_add(grown_mib.saturating_mul(16_000_000).saturating_mul(call_cpu_limit_ns() / 4_000_000_000));
     match r {
